@@ -1049,6 +1049,9 @@ class ConnectionBase(object):
         self.seq_message = SeqNum()
         self.seq_fragment = SeqNum()
 
+        # true when the previous packet had no room for the oldest queued message
+        self.outgoing_starved = False
+
         self.bitfield_pkt = BitField(32)
         self.bitfield_msg = BitField(256)
 
@@ -1187,6 +1190,17 @@ class ConnectionBase(object):
         # while the sizes computed below include the message overhead
         max_size = Packet.MAX_PAYLOAD_SIZE + Packet.MESSAGE_OVERHEAD_1
 
+        # messages waiting to be resent are packed first. a steady stream of
+        # them would never leave enough room for a queued message that needs
+        # (almost) a whole packet: when the oldest queued message was left
+        # behind by the previous packet it takes the first turn in this one
+        if self.outgoing_starved and self.outgoing_messages:
+            pending = self.outgoing_messages[0]
+            if len(pending.payload) + Packet.overhead(1) <= max_size:
+                self.outgoing_messages.pop(0)
+                msgs.append(pending)
+                current_msg_length += len(pending.payload)
+
         # resend any messages that had the resend flag set
         # and have not yet timed out or been acked. the resend_delay is a
         # function of connection latency
@@ -1227,6 +1241,8 @@ class ConnectionBase(object):
                 current_msg_length += len(pending.payload)
             else:
                 idx += 1
+
+        self.outgoing_starved = len(msgs) > 0 and len(self.outgoing_messages) > 0
 
         # if there are no messages to send, then send a keep alive
         # if a keep alive was sent recently then there is nothing to send
